@@ -90,9 +90,10 @@ def extract(config="rel-all", repo=None, use_cache=True):
             facts = json.load(fh)
         # prune old cache entries for this config, keep the cache small
         for f in os.listdir(CACHE):
-            if f.startswith(config + "-"):
+            fp = os.path.join(CACHE, f)
+            if f.startswith(config + "-") and time.time() - os.path.getmtime(fp) > 1800:
                 try:
-                    os.remove(os.path.join(CACHE, f))
+                    os.remove(fp)
                 except OSError:
                     pass
         tmpc = cpath + ".%d.tmp" % os.getpid()
